@@ -114,7 +114,10 @@ func negotiator(f func(*Session, *StreamConfig) StreamConfig) Negotiator {
 		c := s.Conn()
 		// If the session is not already using a tee conn, but we're configured to
 		// use one, return the new teeConn and don't set any state bits.
-		if _, ok := c.(teeConn); !ok && (cfg.TeeIn != nil || cfg.TeeOut != nil) {
+		// A new connection layer makes the session start over (fresh decoder, the
+		// set of negotiated features is cleared): it is only put in place where a
+		// stream is about to be opened anyway, never in the middle of one.
+		if _, ok := c.(teeConn); !ok && nState.doRestart && (cfg.TeeIn != nil || cfg.TeeOut != nil) {
 			// Cancel any previous teeConn's so that we don't double write to in and
 			// out.
 			if nState.cancelTee != nil {
